@@ -212,6 +212,17 @@ def run(ctx, prog, res):
     ins = [t for _, t in add.calls() if flow.call_name(t) == SCH + "insert"]
     ok = len(ins) == 1 and re.fullmatch(r"Vec::pop\(p2\.inner\)@Some\.0", flow.shape(add, ins[0]["args"][1], depth=5)) is not None and flow.shape(add, ins[0]["args"][0], depth=4) == "p1"
     r7.check(ok, {"fn": add.id, "overlays": "self.insert(popped period)"}, "C14.R7:addition", "addition does not overlay each popped period with self.insert", lib.where_of(add))
+    # "most recently added wins" is order-sensitive: the receiver and the added schedule are never exchanged or replaced
+    swaps = [flow.call_name(t).split("::")[-1] for x in prog.with_closures(add.id) for _, t in prog.fns[x].calls() if re.search(r"core::mem::(swap|replace|take)$", flow.call_name(t))]
+    reassigned = [l for l in (1, 2) if len([n for _, n in add.defs_of(l)]) > 0]
+    r7.check(not swaps and not reassigned, {"fn": add.id, "operands": "never exchanged"}, "C14.R7:addition:operands",
+             "addition exchanges or replaces its operands (%s): the schedule added last no longer wins where both cover a minute" % (swaps or ["assignment to an operand"]), lib.where_of(add))
+    # the merge loop of from_ranges relies on the order it sorted: only order-preserving removals
+    fr = prog.require_fn(SCH + "from_ranges")
+    disorder = [flow.call_name(t).split("::")[-1] for x in prog.with_closures(fr.id) for _, t in prog.fns[x].calls()
+                if re.search(r"Vec::<T(, A)?>::(swap_remove|push|insert|append|extend\w*)$|<impl \[T\]>::(swap|reverse|rotate\w*)$", flow.call_name(t)) and "opening_hours::schedule::TimeRange" in (t["callee"].get("path_args") or "")]
+    r7.check(not disorder, {"fn": fr.id, "after_sorting": "only order-preserving removals"}, "C14.R7:from_ranges:order",
+             "from_ranges applies %s to the sorted ranges: the merge loop relies on the order by start" % disorder, lib.where_of(fr))
     r7.floor(6)
 
     # W --------------------------------------------------------------------------------------
